@@ -522,16 +522,6 @@ integer_quotient(T x, Quantity<U, R> q) {
     return make_quantity<UnitInverseT<U>>(x / q.in(U{}));
 }
 
-// The modulo operator (i.e., the remainder of an integer division).
-//
-// Only defined whenever (R1{} % R2{}) is defined (i.e., for integral Reps), _and_
-// `CommonUnitT<U1, U2>` is also defined.  We convert to that common unit to perform the operation.
-template <typename U1, typename R1, typename U2, typename R2>
-constexpr auto operator%(Quantity<U1, R1> q1, Quantity<U2, R2> q2) {
-    using U = CommonUnitT<U1, U2>;
-    return make_quantity<U>(q1.in(U{}) % q2.in(U{}));
-}
-
 // Callsite-readable way to convert a `Quantity` to a raw number.
 //
 // Only works for dimensionless `Quantities`; will return a compile-time error otherwise.
@@ -770,6 +760,24 @@ constexpr auto operator+(Quantity<U1, R1> q1, Quantity<U2, R2> q2) {
 template <typename U1, typename U2, typename R1, typename R2>
 constexpr auto operator-(Quantity<U1, R1> q1, Quantity<U2, R2> q2) {
     return detail::using_common_type(q1, q2, detail::minus);
+}
+
+// The modulo operator (i.e., the remainder of an integer division) for compatible Quantity types.
+//
+// Only defined whenever (R1{} % R2{}) is defined (i.e., for integral Reps), _and_ the two inputs
+// have a common type.  Like `+` and `-`, we convert both inputs to that common type (common unit
+// _and_ common rep) to perform the operation.
+namespace detail {
+struct Modulo {
+    template <typename T>
+    constexpr auto operator()(const T &a, const T &b) const {
+        return a % b;
+    }
+};
+}  // namespace detail
+template <typename U1, typename R1, typename U2, typename R2>
+constexpr auto operator%(Quantity<U1, R1> q1, Quantity<U2, R2> q2) {
+    return detail::using_common_type(q1, q2, detail::Modulo{});
 }
 
 // Mixed-type operations with a left-Quantity, and right-Quantity-equivalent.
